@@ -81,6 +81,15 @@ def values_part(ck, tier):
         perm = rng.permutation(xs.size)
         kde2 = make(sample[::-1].copy(), bandwidth=h)
         kde3 = make(sample.astype(int), bandwidth=h)            # whole-number sample given as an integer array
+        if sample.size % 2 == 0:
+            # the same values handed over as a 2-D array (two stacked chains) and as a nested list
+            for form in (sample.reshape(2, -1), sample.reshape(2, -1).tolist()):
+                kde4 = make(form, bandwidth=h)
+                if not (np.array_equal(np.asarray(kde4(xs), dtype=float), got_p) and np.array_equal(np.asarray(kde4.cdf(xs), dtype=float), got_c)):
+                    ck.violation("a sample given as a 2-D array / nested list gives the estimate of the flattened sample",
+                                 {**ident, "x": xs[len(xs) // 2], "pdf_flat": got_p[len(xs) // 2], "pdf_2d": float(np.asarray(kde4(xs))[len(xs) // 2]),
+                                  "cdf_last_flat": got_c[-1], "cdf_last_2d": float(np.asarray(kde4.cdf(xs))[-1])}, site="GaussianKDE.__init__:sample-shape")
+                    break
         if not (np.array_equal(np.asarray(kde3(xs), dtype=float), got_p) and np.array_equal(np.asarray(kde3.cdf(xs), dtype=float), got_c)):
             ck.violation("an integer-typed sample gives the same estimate as the equal float sample", {**ident, "x": xs[j]}, site="GaussianKDE.dtype:sample")
         ok = (float(kde(xs[j])) == got_p[j] and float(kde.cdf(xs[j])) == got_c[j] and np.array_equal(np.asarray(kde(xs[perm])), got_p[perm])
@@ -254,6 +263,25 @@ def moments_part(ck, tier):
                                   "scaled": [m1, v1, s1, k1]}, site="GaussianKDE.moments:covariance")
         if len(ck.samples) < 2 and len(results) > 2:
             ck.sample({"histogram": hs, "copies": factor, "bandwidth": h, "exact_moments": [M, V, S, Ku]})
+    # mode of a multi-modal estimate with a narrow tall peak next to a broad one (user bandwidth far below the range): the reported mode
+    # must reach the maximum of the estimate on a fine grid
+    from scipy import stats as _st
+    for pos in (2.3, 2.55, 2.8, 3.05, 3.3):
+        tall = pos + 0.05 * _st.norm().ppf((np.arange(300) + 0.5) / 300)
+        broad = -2.0 + _st.norm().ppf((np.arange(700) + 0.5) / 700)
+        smp = np.concatenate([tall, broad])
+        ck.case(("mode-narrow-peak", pos))
+        try:
+            kd = make(smp, bandwidth=0.05)
+            fine = np.linspace(smp.min(), smp.max(), 40001)
+            pmax = float(np.max(kd(fine)))
+            pm = float(kd(kd.mode))
+        except Exception as ex:
+            ck.violation("GaussianKDE raised", {"sample": "300 points N(%.2f, 0.05) + 700 points N(-2, 1)" % pos, "error": repr(ex)[:200]}, site="GaussianKDE.__init__")
+            continue
+        if not pm >= pmax * (1 - 1e-3):
+            ck.violation("mode is a point of maximal estimated density", {"sample": "300 points N(%.2f, 0.05) + 700 points N(-2, 1)" % pos, "bandwidth": 0.05,
+                                                                           "mode": float(kd.mode), "density_at_mode": pm, "max_on_fine_grid": pmax}, site="GaussianKDE.mode")
     ck.traces += len(cases)
     # interval(f) on samples WITHOUT ties (distinct levels with gaps): with heavily tied data the sample-based starting interval of the
     # search has zero width, which is outside the "reasonable sample" the property speaks about
